@@ -1,6 +1,7 @@
 package p_lru
 
 import (
+	"math"
 	"strings"
 	"testing"
 
@@ -64,6 +65,13 @@ func exhaustiveConfigs() []exhaustiveConfig {
 		{Shape: ShapeCache, Cap: 1, Keys: 2, DepthQ: 3, DepthT: 5, Reentrant: true},
 		{Shape: ShapeCache, Cap: 2, Keys: 3, DepthQ: 3, DepthT: 4, Reentrant: true},
 		{Shape: ShapeExpirable, Cap: 2, Keys: 3, DepthQ: 3, DepthT: 4, Reentrant: true},
+		// interface-typed values: per key also creations that return the nil interface value / a typed nil pointer (alphabet 11)
+		{Shape: ShapeIface, Cap: 1, Keys: 2, DepthQ: 4, DepthT: 5},
+		{Shape: ShapeIface, Cap: 2, Keys: 2, DepthQ: 4, DepthT: 5},
+		// "unbounded" caches: nothing is ever evicted, Clear/Remove/hits as usual (alphabets 7, 7, 11)
+		{Shape: ShapeCache, Cap: math.MaxInt, Keys: 2, DepthQ: 4, DepthT: 6},
+		{Shape: ShapeCache, Cap: math.MaxInt - 1, Keys: 2, DepthQ: 3, DepthT: 5},
+		{Shape: ShapeIface, Cap: math.MaxInt, Keys: 2, DepthQ: 3, DepthT: 4},
 	}
 }
 
@@ -74,7 +82,8 @@ func TestC08Exhaustive(t *testing.T) {
 	if shard == 0 {
 		for _, sh := range Shapes {
 			for _, c := range []Case{{Shape: sh, Cap: 0, Keys: 1}, {Shape: sh, Cap: -1, Keys: 1}, {Shape: sh, Cap: -1 << 31, Keys: 1},
-				{Shape: sh, Cap: 1, Keys: 1, NilCreate: true}, {Shape: sh, Cap: 0, Keys: 1, NilCreate: true}, {Shape: sh, Cap: 1, Keys: 1, NoCB: true}} {
+				{Shape: sh, Cap: 1, Keys: 1, NilCreate: true}, {Shape: sh, Cap: 0, Keys: 1, NilCreate: true}, {Shape: sh, Cap: 1, Keys: 1, NoCB: true},
+				{Shape: sh, Cap: math.MinInt, Keys: 1}, {Shape: sh, Cap: math.MaxInt, Keys: 1, NilCreate: true}} {
 				info, v := Run(c)
 				st.Report(t, "TestC08Exhaustive", c, v)
 				recordSeq(c, info)
@@ -137,6 +146,7 @@ func genNested(t *rapid.T, shape string, nk, depth int) []Op {
 			op.K = "g"
 			op.Fail = rapid.IntRange(0, 5).Draw(t, "nestedFail") == 0
 			op.Born = genBorn(t, shape, "nestedBorn")
+			op.Nil = genNil(t, shape, "nestedNil")
 			if depth < MaxDepth && nk > 2 && rapid.IntRange(0, 3).Draw(t, "deeper") == 0 {
 				op.Nested = genNested(t, shape, nk, depth+1)
 			}
@@ -163,6 +173,21 @@ func genBorn(t *rapid.T, shape, label string) int {
 	return 0
 }
 
+// genNil draws Op.Nil for a GetOrCreate of the iface shape: two creations in five hand over a nil value (the nil interface
+// value three times as often as a typed nil pointer).
+func genNil(t *rapid.T, shape, label string) int {
+	if shape != ShapeIface {
+		return 0
+	}
+	switch n := rapid.IntRange(0, 9).Draw(t, label); {
+	case n < 6:
+		return KindValue
+	case n < 9:
+		return KindNilIface
+	}
+	return KindNilPtr
+}
+
 // genOps draws an op list for a configuration.
 func genOps(t *rapid.T, shape string, nk, maxLen int, heavy bool) []Op {
 	reuse := shape == ShapeECache && rapid.Bool().Draw(t, "reusePKBuffers") // half of the ecache cases
@@ -185,7 +210,7 @@ func genOps(t *rapid.T, shape string, nk, maxLen int, heavy bool) []Op {
 		}
 		switch {
 		case kind < gEnd:
-			op := Op{K: "g", Key: key, Var: vr, Buf: buf, Fail: rapid.IntRange(0, 5).Draw(t, "fail") == 0, Born: genBorn(t, shape, "born")}
+			op := Op{K: "g", Key: key, Var: vr, Buf: buf, Fail: rapid.IntRange(0, 5).Draw(t, "fail") == 0, Born: genBorn(t, shape, "born"), Nil: genNil(t, shape, "nil")}
 			if nk > 1 && rapid.IntRange(0, 5).Draw(t, "reentrant") == 0 { // the create function uses the cache itself
 				op.Nested = genNested(t, shape, nk, 1)
 			}
@@ -206,7 +231,8 @@ func genOps(t *rapid.T, shape string, nk, maxLen int, heavy bool) []Op {
 func genCase(t *rapid.T) Case {
 	c := Case{Shape: rapid.SampledFrom(Shapes).Draw(t, "shape")}
 	maxLen := vstat.Pick(80, 160)
-	switch cl := rapid.IntRange(0, 19).Draw(t, "capClass"); {
+	endClear := false
+	switch cl := rapid.IntRange(0, 21).Draw(t, "capClass"); {
 	case cl < 13: // capacities 1..4 with 2..6 keys
 		c.Cap = rapid.IntRange(1, 4).Draw(t, "cap")
 		c.Keys = rapid.IntRange(2, 6).Draw(t, "keys")
@@ -222,6 +248,11 @@ func genCase(t *rapid.T) Case {
 		c.Cap = rapid.IntRange(-3, 1).Draw(t, "cap")
 		c.NilCreate = c.Cap == 1 || rapid.Bool().Draw(t, "nilCreate")
 		c.Keys = 2
+	case cl >= 20: // "unbounded" and other huge capacities: never full, nothing may ever be evicted
+		c.Cap = rapid.SampledFrom(HugeCaps).Draw(t, "hugeCap")
+		c.Keys = rapid.IntRange(2, 6).Draw(t, "keys")
+		c.NoCB = rapid.IntRange(0, 3).Draw(t, "noCallback") == 0
+		endClear = rapid.IntRange(0, 2).Draw(t, "endWithClear") == 0 // the list ends with a Clear of whatever is resident then
 	default: // nil delete callback: only return values and create calls are observable
 		c.Cap = rapid.IntRange(1, 4).Draw(t, "cap")
 		c.Keys = rapid.IntRange(2, 6).Draw(t, "keys")
@@ -235,6 +266,9 @@ func genCase(t *rapid.T) Case {
 			pre[i] = Op{K: "g", Key: i}
 		}
 		c.Ops = append(pre, c.Ops...)
+	}
+	if endClear {
+		c.Ops = append(c.Ops, Op{K: "c"})
 	}
 	return c
 }
